@@ -5,8 +5,8 @@
        split_conjunction / split_disjunction lists, i.e. equality modulo re-nesting),
      Formula.__and__ / __or__ / __neg__ (every simplification case), SMTFormula.__neg__,
      split_conjunction / split_disjunction, replace_formula (formula argument),
-     convert_to_nnf, convert_to_dnf(deep) (with its assert and the 2-tuple unpacking of
-     itertools.product), ISLaSolver.establish_invariant = dnf(nnf(f), deep=False),
+     convert_to_nnf, convert_to_dnf(deep) (with its assert; itertools.product over whole
+     combinations, as repaired by /repo commit 71bb9ab), ISLaSolver.establish_invariant = dnf(nnf(f), deep=False),
      substitute_variables, BoundVariablesCollector, fresh_vars, ensure_unique_bound_variables.
 
    Atoms (SMT formulas) are abstract: the Section variables below stand for z3's structural
@@ -224,46 +224,42 @@ Section Rewrite.
     | l :: ls' => flat_map (fun x => map (cons x) (product ls')) l
     end.
 
-  (* reduce(&, FrozenOrderedSet(split_conjunction(left & right)), true());
-     for the proposed fix `left & right` becomes reduce(&, combination) *)
+  (* reduce(&, FrozenOrderedSet(split_conjunction(reduce(&, combination))), true())
+     (repaired code, /repo commit 71bb9ab: whole combinations of itertools.product instead of
+     the 2-tuple unpacking `for left, right in ...` that raised ValueError for n != 2) *)
   Definition dnf_clause (c : list form) : form :=
     fold_left f_and (dedup (split_conj (reduce1 f_and f_true c))) f_true.
 
-  (* the conjunction case once the arguments' disjunct lists are known.
-     fixed = false: pinned code, `for left, right in itertools.product(..)`
-                    raises ValueError unless there are exactly two lists;
-     fixed = true : proposed fix C09-dnf-nary (iterate over whole combinations). *)
-  Definition dnf_conj (fixed : bool) (f : form) (dl : list (list form)) : res form :=
+  (* the conjunction case once the arguments' disjunct lists are known *)
+  Definition dnf_conj (f : form) (dl : list (list form)) : res form :=
     if forallb len1 dl then Ok f
-    else if existsb isnil dl then Ok f_false                    (* empty product: no unpacking *)
-    else if negb fixed && negb (Nat.eqb (length dl) 2) then Raise ValueErr
     else Ok (fold_left f_or (map dnf_clause (product dl)) f_false).
 
-  Fixpoint dnf (fixed deep : bool) (f : form) : res form :=
+  Fixpoint dnf (deep : bool) (f : form) : res form :=
     if dnf_assert_fails f then Raise AssertErr else
     match f with
     | FAnd fs =>
         bind ((fix go (l : list form) : res (list (list form)) :=
                  match l with
                  | [] => Ok []
-                 | a :: l' => bind (dnf fixed true a) (fun r => bind (go l') (fun rs => Ok (split_disj r :: rs)))
+                 | a :: l' => bind (dnf true a) (fun r => bind (go l') (fun rs => Ok (split_disj r :: rs)))
                  end) fs)
-             (dnf_conj fixed f)
+             (dnf_conj f)
     | FOr fs =>
         bind ((fix go (l : list form) : res (list form) :=
                  match l with
                  | [] => Ok []
-                 | a :: l' => bind (dnf fixed true a) (fun r => bind (go l') (fun rs => Ok (r :: rs)))
+                 | a :: l' => bind (dnf true a) (fun r => bind (go l') (fun rs => Ok (r :: rs)))
                  end) fs)
              (fun rs => Ok (fold_left f_or rs f_false))
-    | FForall v i m b => if deep then bind (dnf fixed true b) (fun b' => Ok (FForall v i m b')) else Ok f
-    | FExists v i m b => if deep then bind (dnf fixed true b) (fun b' => Ok (FExists v i m b')) else Ok f
+    | FForall v i m b => if deep then bind (dnf true b) (fun b' => Ok (FForall v i m b')) else Ok f
+    | FExists v i m b => if deep then bind (dnf true b) (fun b' => Ok (FExists v i m b')) else Ok f
     | _ => Ok f
     end.
 
   (* ISLaSolver.establish_invariant: the disjuncts of dnf(nnf(constraint), deep=False) *)
-  Definition establish_invariant (fixed : bool) (f : form) : res (list form) :=
-    bind (dnf fixed false (nnf f false)) (fun g => Ok (split_disj g)).
+  Definition establish_invariant (f : form) : res (list form) :=
+    bind (dnf false (nnf f false)) (fun g => Ok (split_disj g)).
 
   (* ---------- replace_formula(in_formula, to_replace : Formula, replace_with) ---------- *)
   Fixpoint replace_formula (f tr rw : form) : form :=
